@@ -147,6 +147,7 @@ fn cmd_replay(args: &[String]) -> i32 {
     let mut vio_total = 0u64;
     let mut distinct = std::collections::HashSet::new();
     let mut samples = vec![];
+    let mut by_kind: std::collections::HashMap<String, [u64; 3]> = std::collections::HashMap::new();
     let mut global: std::collections::HashMap<(u64, u64, u64), (u64, u64)> = std::collections::HashMap::new();
     for h in handles {
         let (c, s) = h.join().expect("worker thread");
@@ -195,13 +196,20 @@ fn cmd_replay(args: &[String]) -> i32 {
         violations.extend(c.violations);
         distinct.extend(c.distinct);
         samples.extend(s);
+        for (k, v) in c.by_kind.iter() {
+            let e = by_kind.entry(k.clone()).or_insert([0u64; 3]);
+            for j in 0..3 {
+                e[j] += v[j];
+            }
+        }
     }
     samples.truncate(3);
     let res = json!({
         "prop": prop, "tier": tier, "seed": seed, "lines": nl, "units": units.len(),
         "unit_labels": units.iter().map(|u| u.label()).collect::<Vec<_>>(),
         "stats": replay::stats_json(&stats), "distinct": distinct.len(),
-        "violations_total": vio_total, "violations": violations, "samples": samples
+        "violations_total": vio_total, "violations": violations, "samples": samples,
+        "by_kind": by_kind.iter().map(|(k, v)| (k.clone(), json!({"steps": v[0], "values": v[1], "relational": v[2]}))).collect::<serde_json::Map<String, Value>>()
     });
     let mut f = std::fs::File::create(&out).expect("create out");
     f.write_all(serde_json::to_string(&res).unwrap().as_bytes()).unwrap();
@@ -336,6 +344,7 @@ fn cmd_streams(args: &[String]) -> i32 {
         }));
     }
     let mut stats = replay::Stats::default();
+    let mut by_kind: std::collections::HashMap<String, [u64; 3]> = std::collections::HashMap::new();
     let mut violations: Vec<Value> = vec![];
     let mut vio_total = 0u64;
     let mut total = 0;
@@ -358,6 +367,12 @@ fn cmd_streams(args: &[String]) -> i32 {
         stats.max_rel_err = stats.max_rel_err.max(a.max_rel_err);
         vio_total += c.vio_total;
         violations.extend(c.violations);
+        for (k, v) in c.by_kind.iter() {
+            let e = by_kind.entry(k.clone()).or_insert([0u64; 3]);
+            for j in 0..3 {
+                e[j] += v[j];
+            }
+        }
     }
     let mut sample_ts: Vec<u64> = expects.keys().cloned().collect();
     sample_ts.sort();
@@ -365,6 +380,7 @@ fn cmd_streams(args: &[String]) -> i32 {
         "prop": prop, "tier": tier, "seed": seed, "lines": 1, "units": units.len(),
         "stats": replay::stats_json(&stats), "distinct": expects.len(), "stream_length": total,
         "violations_total": vio_total, "violations": violations,
+        "by_kind": by_kind.iter().map(|(k, v)| (k.clone(), json!({"steps": v[0], "values": v[1], "relational": v[2]}))).collect::<serde_json::Map<String, Value>>(),
         "samples": [{"kind": sj["kind"], "per": sj["per"], "sched": sj["sched"].as_array().unwrap().iter().map(|g| json!({"pat_len": g["pat"].as_array().unwrap().len(), "pat_head": g["pat"].as_array().unwrap().iter().take(6).collect::<Vec<_>>(), "reps": g["reps"]})).collect::<Vec<_>>(), "sampled_steps": sample_ts}]
     });
     std::fs::write(&out_path, serde_json::to_string(&res).unwrap()).unwrap();
